@@ -196,19 +196,28 @@ type Got struct {
 	Series map[string]map[int64]float64
 	// Dup lists label sets that came back as more than one output series.
 	Dup []string
+	// EmptyDup: two output series whose label sets differ only in empty-valued labels (qryn
+	// writes name="" for a value it could not extract; LogQL knows no empty label): the
+	// expected answer is not settled.
+	EmptyDup bool
 }
 
 func collectGot(out *c07.Outcome) Got {
 	g := Got{Series: map[string]map[int64]float64{}}
 	fpOf := map[string]uint64{}
+	rawOf := map[string]string{}
 	dup := map[string]bool{}
 	for _, e := range out.Entries {
 		k := refeval.LabelsKey(refeval.NormLabels(e.Labels))
-		if fp, ok := fpOf[k]; ok && fp != e.Fingerprint && !dup[k] {
+		raw := refeval.LabelsKey(e.Labels)
+		if r, ok := rawOf[k]; ok && r != raw {
+			g.EmptyDup = true
+		} else if fp, ok := fpOf[k]; ok && fp != e.Fingerprint && !dup[k] {
 			dup[k] = true
 			g.Dup = append(g.Dup, k)
 		}
 		fpOf[k] = e.Fingerprint
+		rawOf[k] = raw
 		if g.Series[k] == nil {
 			g.Series[k] = map[int64]float64{}
 		}
@@ -467,6 +476,10 @@ func predMetric(c MetricCase, o *evid.Obs) error {
 	describe := func() string {
 		return fmt.Sprintf("query: %s\nwindow [%d,%d) step %dms range %dns\nexpected:%s\ngot:%s\nSQL: %s", text, c.W.FromNs(), c.W.ToNs(), c.StepMs, c.Q.RangeNs(), fmtSeries(want), fmtSeries(got.Series), out.SQL())
 	}
+	if got.EmptyDup {
+		o.Discard("dontcare:series-differ-only-in-empty-labels")
+		return nil
+	}
 	if len(got.Dup) > 0 {
 		return fmt.Errorf("label set %s came back as more than one output series\n%s", got.Dup[0], describe())
 	}
@@ -477,5 +490,5 @@ func predMetric(c MetricCase, o *evid.Obs) error {
 }
 
 func addMetric(r *evid.Run) {
-	evid.Add(r, evid.Prop[MetricCase]{Name: "metric", Quick: 3000, Thorough: 12000, Gen: genMetric, Pred: predMetric})
+	evid.Add(r, evid.Prop[MetricCase]{Name: "metric", Quick: 3000, Thorough: 30000, Gen: genMetric, Pred: predMetric})
 }
